@@ -7,6 +7,11 @@ patternformatter.cpp  FunctionToken::cleanup: the trailing-qualifier list, the o
                       parseFormatSpec: the alignment characters, the truncate suffix
 prettyformatter.cpp   the typeLetters table, the constants of the size estimate and of "[name] "
                       AttributeToken / LiteralToken: shape of the pending-remove arithmetic (anchor only)
+prettyformatter.h     the default maxCategoryWidth
+configure.cpp         the formatter chain of the one-line configure(pipeline, path, ...):
+                      PrettyFormatterPtr::create(<colorize>) first, then a FunctionFormatter whose body removes
+                      every match of ESC [ <class>* <final> (introducer, parameter class, final byte of the
+                      regular expression) from the formatted message
 A missing anchor raises AnchorError (the check then reports the translator tie as broken)."""
 import re
 from .common import rd, need, fn_body, strip_comments, AnchorError, HDR
@@ -83,7 +88,34 @@ def generate():
              'PrettyFormatter: categoryFormatLength')
     cfl = int(m.group(1))
 
-    out = HDR % 'src/qtlogger/formatters/{patternformatter,prettyformatter}.cpp'
+    # the default column limit, and the formatter chain of the one-line configure()
+    ph = strip_comments(rd('formatters/prettyformatter.h'))
+    m = need(re.search(r'explicit PrettyFormatter\(bool colorize = \w+, int maxCategoryWidth = (\d+)\);', ph),
+             'PrettyFormatter: default maxCategoryWidth')
+    def_maxw = int(m.group(1))
+    c = strip_comments(rd('configure.cpp'))
+    cb = fn_body(c, 'void configure', 'configure(Pipeline *, const QString &path, ...)')
+    m = need(re.search(r'\*pipeline << PrettyFormatterPtr::create\((true|false)\);', cb), 'configure: PrettyFormatterPtr::create(<colorize>)')
+    cfg_color = m.group(1)
+    m = need(re.search(r'FunctionFormatterPtr::create\(\[\]\(const LogMessage &lmsg\) \{\s*auto fmsg = lmsg\.formattedMessage\(\);\s*'
+                       r'static const QRegularExpression (\w+)\(QStringLiteral\("((?:[^"\\]|\\.)*)"\)\);\s*fmsg\.remove\(\1\);\s*return fmsg;\s*\}\)', cb),
+             'configure: FunctionFormatter removing the colour codes with fmsg.remove(QRegularExpression)')
+    rx = m.group(2)
+    # the C++ literal of a regular expression of the form  <intro chars> [ <class> ]* <final char>
+    m = need(re.fullmatch(r'((?:\\0?33|\\x1[bB]|\\\\\[)+)\[((?:[^\]\\]|\\\\.)+)\]\*([A-Za-z])', rx),
+             'configure: colour-code expression of the form ESC \\[ [class]* final (found %r)' % rx)
+    intro = [27 if t[1] in '0x' else ord('[') for t in re.findall(r'\\0?33|\\x1[bB]|\\\\\[', m.group(1))]
+    cls, final = m.group(2), m.group(3)
+    params, i = [], 0
+    while i < len(cls):
+        if i + 2 < len(cls) and cls[i + 1] == '-':
+            params += list(range(ord(cls[i]), ord(cls[i + 2]) + 1)); i += 3
+        else:
+            need(cls[i] not in '\\^', 'configure: plain character class in the colour-code expression'); params.append(ord(cls[i])); i += 1
+    need(intro == [27, 91] and params and 27 not in params and 91 not in params and ord(final) not in params,
+         'configure: colour-code expression = ESC [ then a class without ESC, [ and the final byte')
+
+    out = HDR % 'src/qtlogger/formatters/{patternformatter,prettyformatter}.cpp, configure.cpp'
     out += 'From Coq Require Import List NArith ZArith.\nImport ListNotations.\nLocal Open Scope N_scope.\n'
     out += '(* FunctionToken::cleanup *)\n'
     out += 'Definition src_qualifiers : list (list N) :=\n  [' + ';\n   '.join(coq_bytes(q) for q in quals) + '].\n'
@@ -102,4 +134,10 @@ def generate():
     out += 'Definition src_type_letters : list N := %s.\n' % coq_bytes(''.join(letters))
     out += 'Definition src_pretty_est_base : Z := %d%%Z.\nDefinition src_pretty_est_extra : Z := %d%%Z.\nDefinition src_pretty_est_color : Z := %d%%Z.\n' % tuple(est)
     out += 'Definition src_pretty_cat_extra : Z := %d%%Z.\n' % cfl
+    out += 'Definition src_pretty_default_maxw : Z := %d%%Z.\n' % def_maxw
+    out += '(* configure(pipeline, path, ...): PrettyFormatter(colorize) -> FunctionFormatter removing ESC [ params* final *)\n'
+    out += 'Definition src_cfg_colorize : bool := %s.\n' % cfg_color
+    out += 'Definition src_sgr_esc : N := %d.\nDefinition src_sgr_open : N := %d.\n' % tuple(intro)
+    out += 'Definition src_sgr_params : list N := [%s].\n' % '; '.join(str(x) for x in sorted(set(params)))
+    out += 'Definition src_sgr_final : N := %d.\n' % ord(final)
     return {'SrcSafety.v': out}
